@@ -67,9 +67,9 @@ CHECKS = {
 
 EXTRA = {
     "C01": " Also: repositories at scale (tens of thousands of commits, thousands of references, promisor layout), random option sequences, deterministic per-child fault sweeps (exit 0 must mean the fault-free report) and library scans with paused progress-meter / grouper callbacks.",
-    "C02": " Also: scale / promisor / duplicate-parent repositories, late-starting and burst-delivering children, fault sweeps, library scans with paused callbacks.",
+    "C02": " Also: reference counts around batch boundaries (255-4100) with the last-listed references the only way to each maximum behind a slow listing consumer, scale / promisor / duplicate-parent repositories, late-starting and burst-delivering children, fault sweeps, library scans with paused callbacks.",
     "C03": " Also: objects that vanish while the scan runs (concurrent prune), stalled stderr readers on many-reference repositories, library scans with paused callbacks.",
-    "C04": " Also: library scans with paused callbacks incl. one long pause over thousands of small objects, runs of 33-70 KB objects, fault sweeps.",
+    "C04": " Also: directories of 127-65537 subdirectory entries (as subdirectory and as root), library scans with paused callbacks incl. one long pause over thousands of small objects, runs of 33-70 KB objects, fault sweeps.",
     "C05": " Also: a 65536 x 65536 bomb with the second pass delivered in one burst, generic fault probes and sweeps.",
     "C06": " Also: thousands of references behind stalled stderr readers, Unicode-space names, match-nothing patterns, fault sweeps.",
     "C07": " Also: 10^5 unwalked and thousands of walked references in all three formats, ROOTs aliasing references, regexps with prefix alternatives / lazy quantifiers, fault sweeps.",
@@ -78,12 +78,12 @@ EXTRA = {
     "C10": " Also: refgroup-configured targets, lingering failures (status seconds after end of output), objects vanishing mid-run, stdout limited by a sealed memory file at every line boundary, EAGAIN on a non-blocking pipe, cases repeated with --cpuprofile / --show-refs.",
     "C11": " Also: many walked references behind a stalled stderr pipe, fault sweeps.",
     "C12": " Also: in-table renderings of 64-bit tie-adjacent values, first-use rounds on pristine formatter copies (8 goroutines released together), tables through a pipe switched to non-blocking.",
-    "C13": " Also: object store named by the environment, decoy repository as working directory with discovery faults, shallow repositories under every addressing mode and behind a slow git-path child, reference-less repositories, a path containing a line feed, core.useReplaceRefs spelled out in the config.",
-    "C14": " Also: per-worktree configuration scope, late-answering config lookups, fault sweeps over the config children.",
+    "C13": " Also: replace references switched on by the caller (git -c, GIT_CONFIG_PARAMETERS, GIT_CONFIG_COUNT), object store named by the environment, decoy repository as working directory with discovery faults, shallow repositories under every addressing mode and behind a slow git-path child, reference-less repositories, a path containing a line feed, core.useReplaceRefs spelled out in the config.",
+    "C14": " Also: mixed-case and case-differing refgroup names in the equivalent-spelling pairs, per-worktree configuration scope, late-answering config lookups, fault sweeps over the config children.",
     "C15": " Also: configuration listing cut at entry boundaries, case-differing groups, string-prefix rule values, ten expensive groups repeated under every processor count.",
     "C16": " Also: end-to-end stage on the real batch stream (under -race), truncated listings with a monitor on what is passed on to cat-file (shim keeps a copy of the children's stdin), 2*10^4 concurrent parses with unseen type words, interleaved tree iterations.",
-    "C17": " Also: long histories (30k-400k commits), thousands of references, huge directories, degenerate scans, failing runs repeated, runs of large objects - all under both builds.",
-    "C18": " Also: frames of runs with failing children, totals received by a caller-supplied meter with pausing callbacks, fault sweeps.",
+    "C17": " Also: presentation settings from gitconfig behind config lookups answering 2.6 s late, long histories (30k-400k commits), thousands of references, huge directories, degenerate scans, failing runs repeated, runs of large objects - all under both builds.",
+    "C18": " Also: presentation settings from gitconfig with the progress switch given both ways, frames of runs with failing children, totals received by a caller-supplied meter with pausing callbacks, fault sweeps.",
     "C19": " Also: stdout limited at every line boundary, injected git faults (exit 0 => well-formed), several renderings of one result kept and re-validated (library use), escape look-alike names.",
 }
 for _k, _v in EXTRA.items():
